@@ -104,7 +104,7 @@ ToLabel(k, lab) == IF Head(k).t \in {"loop", "range"} /\ LabOf(Head(k)) = lab TH
 ToLoop(k) == IF Head(k).t \in {"loop", "range"} THEN k ELSE ToLoop(Tail(k))
 PastBreakTarget(k) == IF Head(k).t \in {"loop", "range", "sw"} THEN Tail(k) ELSE PastBreakTarget(Tail(k))
 PostFrames(lp) == IF lp.t = "range" \/ IsNone(lp.post) THEN <<>> ELSE <<[t |-> "seq", ss |-> <<lp.post>>, env |-> lp.env]>>
-IsYielding(s) == ~IsNone(s) /\ s.k \in {"yield", "yfrom"}
+IsYielding(s) == ~IsNone(s) /\ s.k \in {"yield", "yfrom", "yfromit"}
 
 SetK(w, i, k) == [w EXCEPT !.cos[i].k = k]
 
@@ -306,6 +306,13 @@ Run(i, w) ==
                           IF Panicked(e.w) THEN [st |-> "panic", w |-> e.w]
                           ELSE LET sp == Spawn(SetK(e.w, i, k1), s.g, e.v, Get(e.w, env, "b")) IN
                                Run(i, SetK(sp.w, i, <<[t |-> "deleg", it |-> sp.id]>> \o k1))
+      \* the local iterator variable  it := D2(r, 3, b)  declared at the top of the function is instance 2 of the
+      \* world (created by the family's Start): advanced by hand and / or delegated to (C05: partially consumed,
+      \* exhausted and repeatedly delegated iterators)
+      [] s.k = "pullit" -> LET r == Adv(2, SetK(w, i, k1)) IN
+                           IF Panicked(r.w) THEN [st |-> "panic", w |-> r.w]
+                           ELSE Run(i, Log(r.w, <<"e", s.id, IF r.ok THEN r.w.cos[2].cur ELSE 0 - 1, 0>>))
+      [] s.k = "yfromit" -> Run(i, SetK(w, i, <<[t |-> "deleg", it |-> 2]>> \o k1))
       [] s.k = "if"    -> LET ini == ApplyInit(s.init, env, w) r == ReadTape(ini.w, s.c.id) IN
                           IF Panicked(r.w) THEN [st |-> "panic", w |-> r.w]
                           ELSE Run(i, SetK(r.w, i, <<[t |-> "seq", ss |-> IF r.b THEN s.a ELSE s.b, env |-> ini.env]>> \o k1))
@@ -313,7 +320,11 @@ Run(i, w) ==
                           IF Panicked(r.w) THEN [st |-> "panic", w |-> r.w]
                           ELSE LET j == SelectCase(s.cases, r.b) IN
                                IF j = 0 THEN Run(i, SetK(r.w, i, k1))
-                               ELSE Run(i, SetK(r.w, i, <<[t |-> "seq", ss |-> CaseStmts(s.cases, j, ini.env), env |-> ini.env], [t |-> "sw"]>> \o k1))
+                               ELSE LET \* form "typeb":  switch tv := r.AnyA(id, ..).(type): in the int clause the bound variable
+                                        \* (= 1) is observed first:  r.E(id + 1, tv, 0)
+                                        pre == IF s.form = "typeb" /\ s.cases[j].g = "t"
+                                               THEN <<[k |-> "effx", id |-> s.c.id + 1, v |-> [k |-> "lit", v |-> 1]]>> ELSE <<>> IN
+                                    Run(i, SetK(r.w, i, <<[t |-> "seq", ss |-> pre \o CaseStmts(s.cases, j, ini.env), env |-> ini.env], [t |-> "sw"]>> \o k1))
       [] s.k = "$fall" -> \* fallthrough: continue with the next clause (its own scope), still inside the switch
                           Run(i, SetK(w, i, <<[t |-> "seq", ss |-> CaseStmts(s.cases, s.j, s.env), env |-> s.env]>> \o rest))
       [] s.k = "block" -> Run(i, SetK(w, i, <<[t |-> "seq", ss |-> s.body, env |-> env]>> \o k1))
@@ -339,7 +350,7 @@ Run(i, w) ==
 
 \* ---------------------------------------------------------------- syntax helpers
 RECURSIVE HasY(_), HasYS(_)
-HasYS(s) == CASE s.k \in {"yield", "yfrom"} -> TRUE
+HasYS(s) == CASE s.k \in {"yield", "yfrom", "yfromit"} -> TRUE
               [] s.k = "unsup" -> UnsupYields(s.u)
               [] s.k = "if"     -> HasY(s.a) \/ HasY(s.b)
               [] s.k = "switch" -> \E j \in 1..Len(s.cases) : HasY(s.cases[j].body)
